@@ -9,10 +9,13 @@ import (
 	"time"
 
 	"github.com/ipfs/go-cid"
+	"github.com/ipld/go-ipld-prime"
 	"github.com/ipld/go-ipld-prime/codec"
 	"github.com/ipld/go-ipld-prime/codec/dagcbor"
 	"github.com/ipld/go-ipld-prime/datamodel"
 	"github.com/ipld/go-ipld-prime/node/basicnode"
+	"github.com/ipld/go-ipld-prime/node/bindnode"
+	"github.com/ipld/go-ipld-prime/schema"
 	peer "github.com/libp2p/go-libp2p/core/peer"
 	cbg "github.com/whyrusleeping/cbor-gen"
 
@@ -46,11 +49,38 @@ func coqBytesRep(b []byte) string {
 	return coqBytes(b)
 }
 
+// the value a stored node stands for: a schema-typed node is stored in its representation form
+func repr(n datamodel.Node) datamodel.Node {
+	if tn, ok := n.(schema.TypedNode); ok {
+		return tn.Representation()
+	}
+	return n
+}
+
 func coqNodeOrNull(n datamodel.Node) string {
 	if n == nil {
 		return "NNull"
 	}
-	return coqNode(n)
+	return coqNode(repr(n))
+}
+
+// a schema-typed voucher whose representation (a tuple) differs from its type-level view (a map)
+type tupleVoucher struct {
+	Amount int64
+	Memo   string
+}
+
+var tupleVoucherType = func() schema.Type {
+	ts, err := ipld.LoadSchemaBytes([]byte("type TupleVoucher struct {\n  Amount Int\n  Memo String\n} representation tuple\n"))
+	if err != nil {
+		panic(err)
+	}
+	return ts.TypeByName("TupleVoucher")
+}()
+
+func typedVoucherNode(r *rng) datamodel.Node {
+	v := &tupleVoucher{Amount: int64(r.intn(1000)) - 500, Memo: []string{"", "memo", "ü"}[r.intn(3)]}
+	return bindnode.Wrap(v, tupleVoucherType)
 }
 
 func coqTime(t cbg.CborTime) string { return coqI64(t.Time().UnixNano()) }
@@ -201,7 +231,9 @@ func randCState(r *rng, boundary bool, sliceBoundary ...bool) *channels.VerifCha
 	nv := r.intn(4)
 	for i := 0; i < nv; i++ {
 		v := channels.VerifEncodedVoucher{Type: datatransfer.TypeIdentifier(types[r.intn(len(types))])}
-		if !r.chance(10) {
+		if r.chance(15) {
+			v.Voucher = channels.VerifNode{Node: typedVoucherNode(r)}
+		} else if !r.chance(10) {
 			v.Voucher = channels.VerifNode{Node: randTopNode(r)}
 		}
 		s.Vouchers = append(s.Vouchers, v)
@@ -209,7 +241,9 @@ func randCState(r *rng, boundary bool, sliceBoundary ...bool) *channels.VerifCha
 	nr := r.intn(4)
 	for i := 0; i < nr; i++ {
 		v := channels.VerifEncodedVoucherResult{Type: datatransfer.TypeIdentifier(types[r.intn(len(types))])}
-		if !r.chance(10) {
+		if r.chance(15) {
+			v.VoucherResult = channels.VerifNode{Node: typedVoucherNode(r)}
+		} else if !r.chance(10) {
 			v.VoucherResult = channels.VerifNode{Node: randTopNode(r)}
 		}
 		s.VoucherResults = append(s.VoucherResults, v)
@@ -401,15 +435,24 @@ func runStateCodec(dir string, seed uint64, tier string) {
 	}
 	res.Cases = len(lines)
 	res.Rule = "random channel records over the whole range of every field (peer ids as arbitrary bytes, 64-bit boundary values, negative block totals, undefined base CID, nil / null / random IPLD selector, 0-3 vouchers and results with random IPLD payloads of every kind, nil or 0-4 stages with logs and nil entries, random time stamps); every twelfth record probes the encoder's limits (text of 8191 / 8192 / 8193 bytes, 8192 / 8193 vouchers); each record: MarshalCBOR bytes or refusal, read back, and four variants of the stored bytes (shuffled keys, missing fields, unknown field, duplicated field, ill-typed value, null value) read by UnmarshalCBOR"
-	const shard = 40
-	for i := 0; i*shard < len(lines) || i == 0; i++ {
-		lo, hi := i*shard, (i+1)*shard
-		if hi > len(lines) {
-			hi = len(lines)
+	// shards bounded by size as well as by count: the records probing the encoder's limits are large, and one
+	// definition of several megabytes overflows coqc's stack
+	const shard, shardBytes = 25, 600000
+	shardNo := 0
+	for lo := 0; lo < len(lines) || shardNo == 0; {
+		hi, size := lo, 0
+		for hi < len(lines) && hi-lo < shard && (hi == lo || size+len(lines[hi]) <= shardBytes) {
+			size += len(lines[hi])
+			hi++
 		}
 		body := "From Coq Require Import List NArith ZArith String Ascii Bool.\nFrom DT Require Import Cbor StateCodec WireCorr StateCorr.\nImport ListNotations.\nLocal Open Scope N_scope.\n\nDefinition cases : list statecase := [\n" +
 			strings.Join(lines[lo:hi], ";\n") + "\n].\n\nDefinition M := Eval vm_compute in mismatches cases.\nPrint M.\n"
-		writeFile(filepath.Join(dir, fmt.Sprintf("cases_statecodec_%03d.v", i)), body)
+		writeFile(filepath.Join(dir, fmt.Sprintf("cases_statecodec_%03d.v", shardNo)), body)
+		shardNo++
+		if hi == lo {
+			break
+		}
+		lo = hi
 	}
 	res.write(dir)
 }
@@ -421,7 +464,7 @@ func diffRecord(a, b *channels.VerifChannelState) string {
 			n = datamodel.Null
 		}
 		var out bytes.Buffer
-		_ = dagcbor.Encode(n, &out)
+		_ = dagcbor.Encode(repr(n), &out)
 		return out.String()
 	}
 	switch {
